@@ -384,7 +384,10 @@ def run_both(ctx, sub, args):
     rc, out, dt = sh(cmd, cwd=d, timeout=3000)
     if rc != 0:
         return None, out
-    rc2, out2, dt2 = sh("%s < cases.tsv > model.out" % vlib.modelrun_path(GROUP), cwd=d, timeout=3000)
+    # the extracted model uses the system stack for its (non tail recursive) list functions: 300 KB entries
+    # need more than the default 8 MB
+    rc2, out2, dt2 = sh("(ulimit -s 4000000 2>/dev/null || ulimit -s unlimited 2>/dev/null || true); %s < cases.tsv > model.out"
+                        % vlib.modelrun_path(GROUP), cwd=d, timeout=3000)
     if rc2 != 0:
         return None, out2
     return d, ""
@@ -449,7 +452,7 @@ def run(ctx):
         if quick:
             runs.append(("fresh", "-seed %d -n 14 -img 40 -exhaustive 1 -scen 12 -ndec 400" % ctx.seed))
         else:
-            runs.append(("fresh", "-seed %d -n 160 -img 200 -exhaustive 12 -big 3 -scen 150 -ndec 6000" % ctx.seed))
+            runs.append(("fresh", "-seed %d -n 110 -img 160 -exhaustive 10 -big 2 -scen 100 -ndec 6000" % ctx.seed))
 
     all_mism, all_fail, total = [], [], 0
     hist_all, stats_all, nontriv, samples = {}, {}, set(), []
